@@ -401,7 +401,12 @@ def run_programs(ctx, run, prop, rp, tis):
         if u_cov is None or not core.close(m_covU, u_cov, scale=sc_cov, rtol=RTOL):
             ctx.disagreements_checked += 1
             if not flagged:
-                ctx.brk("correspondence", f"{run.label}: coverage of program {nm} used at t={pt['t']!r}: implementation {u_cov!r}, model {None if m_covU is None else float(m_covU)!r}", replay=rp1)
+                what_ = f"{run.label}: coverage of program {nm} used at t={pt['t']!r}: implementation {u_cov!r}, documented rule (coverage overwrite x dt for one-off programs capped at 1, else saturation curve of this step's capacity / current eligible; theorems coverage_from_spending, coverage_overwrite) gives {None if m_covU is None else float(m_covU)!r}"
+                if prop == "C13" and m_covU is not None and u_cov is not None:
+                    # the property itself: the coverage prevailing in the step is the one this step's spending / overwrites and current target sizes imply
+                    ctx.violation(dict(key0, law="coverage_used"), what_, rp1)
+                else:
+                    ctx.brk("correspondence", what_, replay=rp1)
     return cov_model
 
 
